@@ -429,8 +429,51 @@ def run_check(plugin, tier: str, seed: int, replay: str | None = None) -> int:
     for l in finding_lines:
         print(l, flush=True)
 
+    # ------------------------------------------------------------------ oracle sweep
+    # The property statement itself (the plug-in's oracles) is evaluated on the implementation on
+    # every run, within a time budget: code outside the modelled cores is otherwise only looked at
+    # after a proof or correspondence breaks. A failing input that no listed finding covers is a
+    # violation with that input as the replay. (Support for the tie between model and code and for
+    # the search; never counted as a proof obligation.)
+    sweep_budget = float(os.environ.get("VERIF_SWEEP_S", "20" if tier == "quick" else "240"))
+    sweep_found = None
+    sweep_counts: dict[str, int] = {}
+    oracles = list(getattr(plugin, "ORACLES", []))
+    if oracles and sweep_budget > 0:
+        per = sweep_budget / len(oracles)
+        for orc in oracles:
+            t_end = time.time() + per
+            sub = random.Random(rng.random())
+            n = 0
+            try:
+                for a in orc.gen(sub, tier):
+                    if time.time() > t_end:
+                        break
+                    n += 1
+                    try:
+                        msg = orc.check(a)
+                    except Exception as e:  # noqa: BLE001
+                        msg = None
+                        corr_errors.append(f"oracle {orc.name} crashed: {type(e).__name__}: {e}")
+                    if msg:
+                        try:
+                            cov = orc.covered(a, msg)
+                        except Exception:  # noqa: BLE001
+                            cov = None
+                        if not cov:
+                            sweep_found = {"oracle": orc.name, "args": a, "message": msg}
+                            break
+            except Exception:  # noqa: BLE001
+                corr_errors.append(f"oracle {orc.name}: generator crashed\n{traceback.format_exc()[-600:]}")
+            sweep_counts[orc.name] = n
+            if sweep_found:
+                break
+        log(f"[sweep] oracles on the implementation: {sweep_counts}" + (f" -> property fails: {sweep_found['message'][:200]}" if sweep_found else ""))
+
     # ------------------------------------------------------------------ decision
     broken = list(lean.broken)
+    if sweep_found:
+        broken.append(f"oracle {sweep_found['oracle']}: the implementation violates the property statement on a generated input")
     if disagreements:
         broken.append(f"correspondence: {len(disagreements)} disagreement(s), first op={disagreements[0]['op']}")
     for f, detail in stale_findings:
@@ -441,7 +484,7 @@ def run_check(plugin, tier: str, seed: int, replay: str | None = None) -> int:
     exit_code = 0
     if broken:
         # failing-input search on the implementation
-        found = failing_input_search(plugin, disagreements, all_cases, rng, tier, log)
+        found = sweep_found or failing_input_search(plugin, disagreements, all_cases, rng, tier, log)
         n = len(os.listdir(os.path.join(VERIF, "replays", prop)))
         rp = os.path.join(VERIF, "replays", prop, f"{n:04d}.json")
         if found:
@@ -487,6 +530,7 @@ def run_check(plugin, tier: str, seed: int, replay: str | None = None) -> int:
             "samples": samples[:12],
             "per_op_cases": per_op,
             "spec_level_ops": [c.op for c in plugin.CORRS if c.spec is not None],
+            "oracle_sweep_inputs": sweep_counts,
             "distribution": dist,
             "disagreements_checked": len(disagreements),
             "known_findings_replayed": [f["id"] for f in my_findings],
